@@ -187,22 +187,43 @@ impl Ctx {
         }
     }
 
-    /// Replay a listed known finding: if it still violates, print a KNOWN-FINDING line.
-    pub fn known_finding<C>(&mut self, file: &str, what: &str, run: &(dyn Fn(&C) -> Result<CaseReport, Stop> + Sync))
+    /// Replay the known findings listed for this property in KNOWN_FINDINGS.txt. A reproduction
+    /// that still fails with its signature prints a KNOWN-FINDING line; one that fails differently
+    /// is a violation; one that passes prints nothing.
+    pub fn known_findings<C>(&mut self, engine: &str, run: &(dyn Fn(&C) -> Result<CaseReport, Stop> + Sync))
     where
         C: Serialize + DeserializeOwned + Debug + Clone + Send + 'static,
     {
-        let path = self.verif_dir.join(file);
-        let Some((_p, _e, case)) = load_replay::<C>(&path) else {
-            self.inconclusive.push(format!("known-finding replay {file} unreadable"));
-            return;
-        };
-        match guarded(&case, run) {
-            Err(Stop::Violation(_)) => {
-                self.known_lines.push(format!("KNOWN-FINDING: property={} {}", self.prop.name(), what));
+        let text = std::fs::read_to_string(self.verif_dir.join("KNOWN_FINDINGS.txt")).unwrap_or_default();
+        for line in text.lines() {
+            let Some(rest) = line.strip_prefix("known: ") else { continue };
+            let kv = parse_kv(rest);
+            if kv.get("property").map(String::as_str) != Some(self.prop.name().as_str()) {
+                continue;
             }
-            Err(Stop::Internal(m)) => self.inconclusive.push(m),
-            _ => {}
+            let (Some(replay), Some(sig), Some(what), Some(id)) = (kv.get("replay"), kv.get("signature"), kv.get("what"), kv.get("id")) else {
+                self.inconclusive.push(format!("malformed known-finding line: {line}"));
+                continue;
+            };
+            let path = self.verif_dir.join(replay);
+            let Some((_p, e, case)) = load_replay::<C>(&path) else {
+                self.inconclusive.push(format!("known-finding replay {replay} unreadable"));
+                continue;
+            };
+            if e != engine {
+                continue;
+            }
+            match guarded(&case, run) {
+                Err(Stop::Violation(m)) => {
+                    if m.contains(sig.as_str()) {
+                        self.known_lines.push(format!("KNOWN-FINDING: property={} {} {}", self.prop.name(), id, what));
+                    } else {
+                        self.violations.push((format!("reproduction of {id} now fails differently: {m}"), path));
+                    }
+                }
+                Err(Stop::Internal(m)) => self.inconclusive.push(m),
+                _ => {}
+            }
         }
     }
 
@@ -222,6 +243,10 @@ impl Ctx {
         coverage.insert("excluded_known".into(), json!(self.acc.excluded_known));
         coverage.insert("known_finding_hits".into(), json!(self.acc.known_hits));
         coverage.insert("cases_abandoned_other_property".into(), json!(self.acc.tainted));
+        coverage.insert(
+            "abandoned_samples".into(),
+            json!(self.acc.tainted_samples.iter().map(|(m, c)| json!({"reason": m, "case": c})).collect::<Vec<_>>()),
+        );
         coverage.insert("phases".into(), json!(self.phases));
         coverage.insert("exhaustive".into(), json!(false));
         coverage.insert("exhaustive_subspaces".into(), json!(self.exhaustive_spaces));
@@ -279,4 +304,43 @@ pub fn load_replay<C: DeserializeOwned>(path: &Path) -> Option<(String, String, 
     let engine = v.get("engine")?.as_str()?.to_string();
     let case: C = serde_json::from_value(v.get("case")?.clone()).ok()?;
     Some((prop, engine, case))
+}
+
+/// Parse `key=value key="quoted value" ...`.
+pub fn parse_kv(s: &str) -> std::collections::HashMap<String, String> {
+    let mut out = std::collections::HashMap::new();
+    let b: Vec<char> = s.chars().collect();
+    let mut i = 0;
+    while i < b.len() {
+        while i < b.len() && b[i].is_whitespace() {
+            i += 1;
+        }
+        let ks = i;
+        while i < b.len() && b[i] != '=' && !b[i].is_whitespace() {
+            i += 1;
+        }
+        if i >= b.len() || b[i] != '=' {
+            break;
+        }
+        let key: String = b[ks..i].iter().collect();
+        i += 1;
+        let val: String;
+        if i < b.len() && b[i] == '"' {
+            i += 1;
+            let vs = i;
+            while i < b.len() && b[i] != '"' {
+                i += 1;
+            }
+            val = b[vs..i].iter().collect();
+            i += 1;
+        } else {
+            let vs = i;
+            while i < b.len() && !b[i].is_whitespace() {
+                i += 1;
+            }
+            val = b[vs..i].iter().collect();
+        }
+        out.insert(key, val);
+    }
+    out
 }
